@@ -24,7 +24,7 @@ func intrinsicName(fn *ssa.Function) string {
 	}
 	switch n {
 	case "vs_assume", "vs_assert", "vs_old", "vs_all", "vs_any", "vs_fresh", "vs_modifies",
-		"vs_visited", "vs_cover", "vs_same", "vs_done", "vs_pos", "vs_called", "vs_callResult", "vs_callArg", "vs_eq":
+		"vs_visited", "vs_cover", "vs_same", "vs_done", "vs_pos", "vs_called", "vs_callResult", "vs_callArg", "vs_callOrder", "vs_eq":
 		return n
 	}
 	return ""
@@ -69,7 +69,8 @@ func (x *Exec) callCommon(fr *Frame, st *State, ins ssa.Instruction, cc *ssa.Cal
 		}
 		x.invoke(fr, st, ins, cc, res)
 		if record {
-			rec := &callRec{called: tTrue, args: argTerms}
+			x.callSeq++
+			rec := &callRec{called: tTrue, args: argTerms, seq: intLit(int64(x.callSeq))}
 			if res != nil {
 				if t, ok := fr.regs[res]; ok {
 					rec.results = []Term{t}
@@ -96,7 +97,8 @@ func (x *Exec) callCommon(fr *Frame, st *State, ins ssa.Instruction, cc *ssa.Cal
 		}
 		x.staticCall(fr, st, ins, cc, callee, nil, res)
 		if record {
-			rec := &callRec{called: tTrue, args: argTerms}
+			x.callSeq++
+			rec := &callRec{called: tTrue, args: argTerms, seq: intLit(int64(x.callSeq))}
 			if res != nil {
 				if t, ok := fr.regs[res]; ok {
 					rec.results = []Term{t}
